@@ -4,8 +4,10 @@
 
    row_wf / value_wf = the Rust types of the fields (value_typed) plus the format's own limits
    (column count < 2^16, byte / element counts < 2^32).  row_same = same variants, equal
-   contents (floats: same bits, or both NaN).  row_zero_float = the row holds Float(+-0.0):
-   the recorded finding F-C33-1 (it is written as the ZERO discriminant and read back as Int 0). *)
+   contents (floats: same bits, or both NaN).
+   History: finding F-C33-1 (Float(+-0.0) was written as the ZERO discriminant and read back as
+   Int 0) was fixed by /repo commit a939896; the model follows the repaired writer and the
+   theorems below hold for all well-formed rows, zero floats included (zero_float_regression). *)
 From Coq Require Import ZArith List Bool.
 From Flocq Require Import IEEE754.Binary IEEE754.Bits.
 From TV Require Import Lib.MachInt Gen.RowSerde Model.RowSerde Proof.RowSerde Proof.SubquerySpill Proof.RowSerdeFloat.
@@ -13,20 +15,20 @@ Import ListNotations.
 Open Scope Z_scope.
 
 (* what deserialize returns on a serialized row followed by anything, for EVERY well-formed row:
-   the row itself up to canon_value (Float(+-0.0) -> Int 0, NaN -> canonical NaN, else identity) *)
+   the row itself up to canon_value (NaN -> canonical NaN, else identity) *)
 Theorem row_serde_behaviour :
   forall row rest, row_wf row = true ->
     deser_row (ser_row row ++ rest) = Some (map canon_value row, rest).
 Proof. exact row_serde_behaviour_l. Qed.
 
-(* the property: outside the recorded class an equal row of the same types comes back,
-   and the reader stops exactly at the end of the row *)
+(* the property: an equal row of the same types comes back, and the reader stops exactly at
+   the end of the row *)
 Theorem row_serde_roundtrip :
-  forall row rest, row_wf row = true -> row_zero_float row = false ->
+  forall row rest, row_wf row = true ->
     exists row', deser_row (ser_row row ++ rest) = Some (row', rest) /\ row_same row row' = true.
 Proof. exact row_serde_roundtrip_l. Qed.
 
-(* bit-for-bit when no Float is +-0.0 or a non-canonical NaN *)
+(* bit-for-bit when no Float is a non-canonical NaN (in particular +0.0 and -0.0 keep their sign) *)
 Theorem row_serde_roundtrip_exact :
   forall row rest, row_wf row = true -> forallb value_exact row = true ->
     deser_row (ser_row row ++ rest) = Some (row, rest).
@@ -34,14 +36,14 @@ Proof. exact row_serde_roundtrip_exact_l. Qed.
 
 (* the same through the (data, &mut offset) interface, after any prefix *)
 Theorem row_serde_at_offset :
-  forall pre row rest, row_wf row = true -> row_zero_float row = false ->
+  forall pre row rest, row_wf row = true ->
     exists row', deser_row_at (pre ++ ser_row row ++ rest) (blen pre) = Some (row', blen pre + blen (ser_row row))
                  /\ row_same row row' = true.
 Proof. exact row_serde_at_offset_l. Qed.
 
 (* sequences of rows in one buffer decode in order *)
 Theorem row_serde_concat :
-  forall rows rest, forallb row_wf rows = true -> existsb row_zero_float rows = false ->
+  forall rows rest, forallb row_wf rows = true ->
     exists rows', deser_rows (length rows) (ser_rows rows ++ rest) = Some (rows', rest) /\ rows_same rows rows' = true.
 Proof. exact row_serde_concat_l. Qed.
 
@@ -50,27 +52,18 @@ Theorem row_size_exact :
   forall row, forallb value_typed row = true -> row_size row = blen (ser_row row).
 Proof. exact row_size_exact_l. Qed.
 
-(* the recorded finding: EVERY well-formed row holding a Float(+-0.0) comes back different *)
-Theorem row_serde_zero_float :
-  forall row rest, row_wf row = true -> row_zero_float row = true ->
-    exists row', deser_row (ser_row row ++ rest) = Some (row', rest) /\ row_same row row' = false.
-Proof. exact row_serde_zero_float_l. Qed.
-
-Theorem row_serde_roundtrip_refuted :
-  exists row, row_wf row = true /\
-    deser_row (ser_row row) = Some ([VInt 7; VInt 0], []) /\ row_same row [VInt 7; VInt 0] = false.
-Proof. exact row_serde_roundtrip_refuted_l. Qed.
-
 (* PartitionSpiller (one partition): whatever the budget, the rows read back equal the rows written *)
 Theorem partition_spiller_roundtrip :
-  forall budget rows, forallb row_wf rows = true -> existsb row_zero_float rows = false ->
+  forall budget rows, forallb row_wf rows = true ->
     exists out, spiller_read budget rows = Some out /\ rows_same rows out = true.
 Proof. exact spiller_read_l. Qed.
 
-(* ... and inside the class the result depends on the memory budget *)
-Theorem partition_spiller_budget_refuted :
-  spiller_read 0 [[VFloat 0]] = Some [[VInt 0]] /\ spiller_read 1000 [[VFloat 0]] = Some [[VFloat 0]].
-Proof. exact partition_spiller_budget_refuted_l. Qed.
+(* the rows of the former finding F-C33-1 (fixed by /repo commit a939896): +0.0 and -0.0 come back
+   bit for bit, and the spiller returns the same rows whether or not it spilled *)
+Theorem zero_float_regression :
+  deser_row (ser_row [VInt 7; VFloat 0; VFloat F64_NEG_ZERO]) = Some ([VInt 7; VFloat 0; VFloat F64_NEG_ZERO], []) /\
+  spiller_read 0 [[VFloat 0]] = Some [[VFloat 0]] /\ spiller_read 1000 [[VFloat 0]] = Some [[VFloat 0]].
+Proof. exact zero_float_regression_l. Qed.
 
 (* the subquery spill format keeps every bit of all 23 OwnedValue variants *)
 Theorem subquery_spill_roundtrip :
@@ -103,14 +96,15 @@ Proof. exact f64_eq_inf_ieee_l. Qed.
 (* non-vacuity: the hypotheses are met by rows over all variants; NaN payloads are the only
    other change; the u16 column count is a real limit of the format (so row_wf is not idle) *)
 Example c33_witness :
-  let row := [VNull; VInt (-5); VInt 0; VFloat 0x3FF0000000000000; VFloat 0x7FF0000000000001; VFloat F64_NEG_INF;
+  let row := [VNull; VInt (-5); VInt 0; VFloat 0; VFloat F64_NEG_ZERO; VFloat 0x3FF0000000000000; VFloat 0x7FF0000000000001; VFloat F64_NEG_INF;
               VText [104; 195; 169]; VBlob [0; 255]; VVector [0x3F800000; 0x7FC00001]; VUuid (repeat 7 16);
               VMacAddr (repeat 1 6); VInet4 [127; 0; 0; 1]; VInet6 (repeat 0 16); VJsonb [1]; VTimestampTz (-1) (-28800);
               VInterval 1 (-2) 3; VPoint 0 (2 ^ 63); VGeoBox 1 2 3 4; VCircle 1 2 3; VEnum 65535 0;
               VDecimal (- 2 ^ 127) (-32768); VToast [9]] in
-  row_wf row = true /\ row_zero_float row = false /\ forallb value_exact row = false /\
+  row_wf row = true /\ forallb value_exact row = false /\
   deser_row (ser_row row) = Some (map canon_value row, []) /\
-  nth 4 (map canon_value row) VNull = VFloat F64_CANON_NAN /\
+  nth 6 (map canon_value row) VNull = VFloat F64_CANON_NAN /\
+  nth 4 (map canon_value row) VNull = VFloat F64_NEG_ZERO /\
   row_size row = blen (ser_row row) /\
   deser_rows 2 (ser_rows [row; []] ++ [1]) = Some ([map canon_value row; []], [1]) /\
   value_wf (VText [192; 128]) = false /\
@@ -127,15 +121,13 @@ Example c33_column_count_limit :
 Proof. vm_compute. reflexivity. Qed.
 
 Check row_serde_behaviour : forall row rest, row_wf row = true -> deser_row (ser_row row ++ rest) = Some (map canon_value row, rest).
-Check row_serde_roundtrip : forall row rest, row_wf row = true -> row_zero_float row = false -> exists row', deser_row (ser_row row ++ rest) = Some (row', rest) /\ row_same row row' = true.
+Check row_serde_roundtrip : forall row rest, row_wf row = true -> exists row', deser_row (ser_row row ++ rest) = Some (row', rest) /\ row_same row row' = true.
 Check row_serde_roundtrip_exact : forall row rest, row_wf row = true -> forallb value_exact row = true -> deser_row (ser_row row ++ rest) = Some (row, rest).
-Check row_serde_at_offset : forall pre row rest, row_wf row = true -> row_zero_float row = false -> exists row', deser_row_at (pre ++ ser_row row ++ rest) (blen pre) = Some (row', blen pre + blen (ser_row row)) /\ row_same row row' = true.
-Check row_serde_concat : forall rows rest, forallb row_wf rows = true -> existsb row_zero_float rows = false -> exists rows', deser_rows (length rows) (ser_rows rows ++ rest) = Some (rows', rest) /\ rows_same rows rows' = true.
+Check row_serde_at_offset : forall pre row rest, row_wf row = true -> exists row', deser_row_at (pre ++ ser_row row ++ rest) (blen pre) = Some (row', blen pre + blen (ser_row row)) /\ row_same row row' = true.
+Check row_serde_concat : forall rows rest, forallb row_wf rows = true -> exists rows', deser_rows (length rows) (ser_rows rows ++ rest) = Some (rows', rest) /\ rows_same rows rows' = true.
 Check row_size_exact : forall row, forallb value_typed row = true -> row_size row = blen (ser_row row).
-Check row_serde_zero_float : forall row rest, row_wf row = true -> row_zero_float row = true -> exists row', deser_row (ser_row row ++ rest) = Some (row', rest) /\ row_same row row' = false.
-Check row_serde_roundtrip_refuted : exists row, row_wf row = true /\ deser_row (ser_row row) = Some ([VInt 7; VInt 0], []) /\ row_same row [VInt 7; VInt 0] = false.
-Check partition_spiller_roundtrip : forall budget rows, forallb row_wf rows = true -> existsb row_zero_float rows = false -> exists out, spiller_read budget rows = Some out /\ rows_same rows out = true.
-Check partition_spiller_budget_refuted : spiller_read 0 [[VFloat 0]] = Some [[VInt 0]] /\ spiller_read 1000 [[VFloat 0]] = Some [[VFloat 0]].
+Check partition_spiller_roundtrip : forall budget rows, forallb row_wf rows = true -> exists out, spiller_read budget rows = Some out /\ rows_same rows out = true.
+Check zero_float_regression : deser_row (ser_row [VInt 7; VFloat 0; VFloat F64_NEG_ZERO]) = Some ([VInt 7; VFloat 0; VFloat F64_NEG_ZERO], []) /\ spiller_read 0 [[VFloat 0]] = Some [[VFloat 0]] /\ spiller_read 1000 [[VFloat 0]] = Some [[VFloat 0]].
 Check subquery_spill_roundtrip : forall rows rest, forallb orow_wf rows = true -> odeser_rows (length rows) (oser_rows rows ++ rest) = Some (rows, rest).
 Check subquery_buffer_roundtrip : forall limit rows, forallb orow_wf rows = true -> subbuf_read limit rows = Some rows.
 Check f64_is_nan_ieee : forall p, 0 <= p < 2 ^ 64 -> is_nan 53 1024 (b64_of_bits p) = f64_is_nan p.
@@ -148,10 +140,8 @@ Print Assumptions row_serde_roundtrip_exact.
 Print Assumptions row_serde_at_offset.
 Print Assumptions row_serde_concat.
 Print Assumptions row_size_exact.
-Print Assumptions row_serde_zero_float.
-Print Assumptions row_serde_roundtrip_refuted.
 Print Assumptions partition_spiller_roundtrip.
-Print Assumptions partition_spiller_budget_refuted.
+Print Assumptions zero_float_regression.
 Print Assumptions subquery_spill_roundtrip.
 Print Assumptions subquery_buffer_roundtrip.
 Print Assumptions f64_is_nan_ieee.
